@@ -31,9 +31,14 @@
    destroying from inside a slot are safe (no access to a dead object)
    after the outermost emission no disconnected/connecting residue      C12_bookkeeping_after_every_history (NoResidue),
                                                                         C12_cleanup_leaves_connected
-   the reference object keeps its emission stacks balanced              C12_reference_stacks_balanced *)
+   the reference object keeps its emission stacks balanced              C12_reference_stacks_balanced
+   fuel: every history completes (no OutOfFuel) from some fuel on,      C12_enough_fuel_exists, C12_reference_step_terminates,
+   and a finished run is the same for every larger fuel                 C12_fuel_irrelevant_model, C12_fuel_irrelevant_reference
+   (tie) the interpreter the correspondence driver runs, which also     C12_trace_erasure
+   records the emitting signal's internal data at every slot entry
+   and exit, is the proved interpreter plus that trace *)
 From Coq Require Import List Arith Bool.
-From Callback Require Import CallbackSpec CallbackModel CallbackLists CallbackInv CallbackOps CallbackDestroy CallbackSim CallbackMain CallbackProofs.
+From Callback Require Import CallbackSpec CallbackModel CallbackLists CallbackInv CallbackOps CallbackDestroy CallbackSim CallbackMain CallbackFuel CallbackTrace CallbackProofs.
 Import ListNotations.
 
 Theorem C12_refinement_init : forall ne nl nsg, R (init ne nl nsg) (sp_init ne nl nsg) /\ Quiet (sp_init ne nl nsg).
@@ -121,6 +126,30 @@ Theorem C12_reference_stacks_balanced : forall sc maxd fuel p a p' lg,
 Proof. exact (fun sc maxd fuel p a p' lg H => proj1 (spec_frame sc maxd fuel) 0 p [] [a] p' lg H). Qed.
 Print Assumptions C12_reference_stacks_balanced.
 
+Theorem C12_enough_fuel_exists : forall sc maxd ne nl nsg ops,
+  exists f0 st lgs, forall f, f0 <= f -> hrun (step sc maxd f) (init ne nl nsg) ops = HDone st lgs.
+Proof. exact model_history_terminates. Qed.
+Print Assumptions C12_enough_fuel_exists.
+
+Theorem C12_reference_step_terminates : forall sc maxd p a, WOK p ->
+  exists f0 p' lg, forall f, f0 <= f -> spec_step sc maxd f p a = Done (p', lg) /\ WOK p'.
+Proof. exact spec_step_terminates. Qed.
+Print Assumptions C12_reference_step_terminates.
+
+Theorem C12_fuel_irrelevant_model : forall sc maxd f d st lg acts r,
+  exec sc maxd f d st lg acts = Done r -> forall f', f <= f' -> exec sc maxd f' d st lg acts = Done r.
+Proof. exact (fun sc maxd f => proj1 (model_fuel_mono sc maxd f)). Qed.
+Print Assumptions C12_fuel_irrelevant_model.
+
+Theorem C12_fuel_irrelevant_reference : forall sc maxd f d p lg acts r,
+  sexec sc maxd f d p lg acts = Done r -> forall f', f <= f' -> sexec sc maxd f' d p lg acts = Done r.
+Proof. exact (fun sc maxd f => proj1 (spec_fuel_mono sc maxd f)). Qed.
+Print Assumptions C12_fuel_irrelevant_reference.
+
+Theorem C12_trace_erasure : forall sc maxd fuel st a, strip (step_tr sc maxd fuel st a) = step sc maxd fuel st a.
+Proof. exact step_tr_erasure. Qed.
+Print Assumptions C12_trace_erasure.
+
 Theorem C12_cleanup_leaves_connected : forall sl, forallb is_conn (cleanup sl) = true.
 Proof. exact cleanup_all_connected. Qed.
 Print Assumptions C12_cleanup_leaves_connected.
@@ -164,5 +193,11 @@ Example ex_emit_next : exists st1,
   | None => None
   end = Some (st1, Some (mkSlot 0 0 Connected)).
 Proof. eexists. vm_compute. reflexivity. Qed.
+Example ex1_trace : match step_tr ex_sc1 3 100 (init 2 2 1) (AConnect 0 0 0 0) with
+  | Done (st, _, _) => match step_tr ex_sc1 3 100 st (AEmit 0 0) with Done (_, lg, tr) => length lg = 1 /\ length tr = 2 | _ => False end
+  | _ => False end.
+Proof. vm_compute. split; reflexivity. Qed.
+Example ex_wok : WOK (sp_begin (sp_connect (sp_init 1 1 1) 0 0 0 0) 0 0).
+Proof. exact (WOK_begin _ 0 0 (WOK_connect _ 0 0 0 0 (WOK_init 1 1 1))). Qed.
 Example ex_cleanup : cleanup [mkSlot 0 0 Disconnected; mkSlot 0 1 Connecting; mkSlot 1 1 Connected] = [mkSlot 0 1 Connected; mkSlot 1 1 Connected].
 Proof. reflexivity. Qed.
